@@ -560,6 +560,13 @@ impl<'a> QCheck<'a> {
 
 /// Compares every read query with the answer computed from the model. Returns the number of
 /// oracle evaluations performed. Violations are reported under `prop`.
+/// true when no two keys are equal (equal parallel edges cannot be told apart, so their mutual
+/// order is unobservable)
+fn distinct_keys(v: &[&String]) -> bool {
+    let s: BTreeSet<&&String> = v.iter().collect();
+    s.len() == v.len()
+}
+
 pub fn check_queries(g: &G, m: &Model, names: &[String], order_known: bool, prop: &'static str) -> u64 {
     let mut evals = 0u64;
     let d = m.specs.directed;
@@ -690,6 +697,60 @@ pub fn check_queries(g: &G, m: &Model, names: &[String], order_known: bool, prop
                     }
                 }
                 (true, Err(k)) => q.fail("get_edges_for_node", &format!("error-on-existing-node:{}", err_name(&k)), json!(u)),
+            }
+        }
+        // on a multi-edge graph the parallel edges of each pair come in insertion order, also
+        // inside the per-node lists (the order of the pairs among each other is not fixed)
+        if m.specs.multi && present {
+            for which in 0..3 {
+                if which > 0 && !d {
+                    continue;
+                }
+                let fname: &'static str = ["get_edges_for_node", "get_in_edges_for_node", "get_out_edges_for_node"][which];
+                let listed = match which {
+                    0 => call!("get_edges_for_node", g.get_edges_for_node(u.clone()).map(|es| es.iter().map(|e| real_edge_key(d, e)).collect::<Vec<_>>()).map_err(|e| e.kind)),
+                    1 => call!("get_in_edges_for_node", g.get_in_edges_for_node(u.clone()).map(|es| es.iter().map(|e| real_edge_key(d, e)).collect::<Vec<_>>()).map_err(|e| e.kind)),
+                    _ => call!("get_out_edges_for_node", g.get_out_edges_for_node(u.clone()).map(|es| es.iter().map(|e| real_edge_key(d, e)).collect::<Vec<_>>()).map_err(|e| e.kind)),
+                };
+                if let Some(Ok(keys)) = listed {
+                    if keys.len() > 20 {
+                        ctx::count("reach:per-node-edge-list-longer-than-20");
+                    }
+                    for v in names {
+                        let between: Vec<String> = m
+                            .edges
+                            .iter()
+                            .filter(|e| match which {
+                                0 => (&e.u == u && &e.v == v) || (&e.u == v && &e.v == u),
+                                1 => &e.v == u && &e.u == v,
+                                _ => &e.u == u && &e.v == v,
+                            })
+                            .map(|e| ekey(d, &e.u, &e.v, e.w, &e.attr))
+                            .collect();
+                        if between.len() < 2 {
+                            continue;
+                        }
+                        // on a directed graph u->v and v->u are different pairs: keep them apart
+                        let dir_ok = |k: &String| !d || which != 0 || true;
+                        let _ = dir_ok;
+                        let set: BTreeSet<&String> = between.iter().collect();
+                        let got_seq: Vec<&String> = keys.iter().filter(|k| set.contains(k)).collect();
+                        let mut want_seq: Vec<&String> = between.iter().collect();
+                        if d && which == 0 {
+                            // both directions are listed; compare each direction's own order
+                            let fwd: Vec<&String> = m.edges.iter().filter(|e| &e.u == u && &e.v == v).map(|e| between.iter().find(|b| **b == ekey(d, &e.u, &e.v, e.w, &e.attr)).unwrap()).collect();
+                            let got_fwd: Vec<&String> = got_seq.iter().copied().filter(|k| fwd.contains(k)).collect();
+                            want_seq = fwd;
+                            if got_fwd != want_seq && distinct_keys(&want_seq) {
+                                q.fail(fname, "parallel-edges-out-of-insertion-order", json!({"node": u, "other": v, "got": got_fwd, "want": want_seq}));
+                            }
+                            continue;
+                        }
+                        if got_seq != want_seq && distinct_keys(&want_seq) {
+                            q.fail(fname, "parallel-edges-out-of-insertion-order", json!({"node": u, "other": v, "got": got_seq, "want": want_seq}));
+                        }
+                    }
+                }
             }
         }
         let ins: Vec<String> = {
